@@ -296,6 +296,44 @@ def explore_slave(acc, zero_mode, shared, global_default=False, explicit=True):
                                               dict(w, read_fx=fy, read_address=b0),
                                               'after setValues(fx=%d, %d, %r): getValues(fx=%d, %d) = %r, expected %r'
                                               % (fx, a, new, fy, b0, g, model[ty][b0]), cfgname)
+    # a table replaced while the context is in use (store[...] assignment, or register()): every function code of that
+    # table sees the new block from then on, the other tables are untouched
+    tname = {'d': 'd', 'c': 'c', 'h': 'h', 'i': 'i'}
+    for how in ('store', 'register'):
+        for fx in (1, 2, 3, 4, 6, 16, 22):
+            if shared:
+                continue
+            ctx, model = fresh()
+            t = FCS[fx]
+            for fy in FCS:                       # the context has served every function code before
+                try:
+                    ctx.validate(fy, 2, 1)
+                    ctx.getValues(fy, 2, 1)
+                except Exception:   # noqa
+                    pass
+            nb = ModbusSequentialDataBlock(20, [700 + i for i in range(3)])
+            try:
+                if how == 'store':
+                    ctx.store[t] = nb
+                else:
+                    ctx.register(fx, t, nb)
+            except Exception as e:   # noqa
+                acc.violation('C18/slave-context/replace-table/raise:%s/zero=%s' % (type(e).__name__, zero_mode), dict(ctx=cfgname, how=how, fx=fx), repr(e)[:80], cfgname)
+                continue
+            acc.inc('transitions', 2 * len(FCS))
+            for fy in FCS:
+                if FCS[fy] != t:
+                    continue
+                for a, want in ((2, False), (20 - off, True), (22 - off, True), (23 - off, False)):
+                    w = dict(ctx=cfgname, how=how, fx=fx, read_fx=fy, address=a)
+                    try:
+                        v = bool(ctx.validate(fy, a, 1))
+                        g = ctx.getValues(fy, a, 1)[0] if v else None
+                    except Exception as e:   # noqa
+                        v, g = 'raise:' + type(e).__name__, None
+                    if v != want or (want and g != 700 + (a + off - 20)):
+                        acc.violation('C18/slave-context/replace-table/stale-block/zero=%s' % zero_mode, w,
+                                      'after the %s table was replaced via %s: validate(fx=%d, %d) = %r, value %r' % (t, how, fy, a, v, g), cfgname)
     acc.add('nontrivial', cfgname)
 
 
